@@ -14,6 +14,9 @@ pub enum Step {
     Give(u32),
     /// Return `ErrorKind::Interrupted`.
     Intr,
+    /// Return `ErrorKind::Interrupted` this many times in a row (a signal storm); from the
+    /// fifth round of the cycle on, once.
+    IntrBurst(u16),
 }
 
 #[derive(Serialize, Deserialize, Clone, Copy, Debug, PartialEq, Eq, Hash)]
@@ -126,7 +129,10 @@ impl Schedule {
         self
     }
     pub fn class(&self) -> &'static str {
-        let intr = self.steps.iter().any(|s| matches!(s, Step::Intr));
+        if self.steps.iter().any(|s| matches!(s, Step::IntrBurst(n) if *n >= 17)) {
+            return "long-intr-burst";
+        }
+        let intr = self.steps.iter().any(|s| matches!(s, Step::Intr | Step::IntrBurst(_)));
         let gives: Vec<u32> = self
             .steps
             .iter()
@@ -181,6 +187,7 @@ pub struct Source {
     log: Rc<RefCell<SrcLog>>,
     prefill: Rc<RefCell<bool>>,
     overreported: bool,
+    burst_left: u32,
 }
 
 impl Source {
@@ -222,6 +229,7 @@ impl Source {
                 log: log.clone(),
                 prefill: Rc::new(RefCell::new(false)),
                 overreported: false,
+                burst_left: 0,
             },
             log,
         )
@@ -276,6 +284,23 @@ impl Read for Source {
                 Step::Intr => {
                     if prefill {
                         continue;
+                    }
+                    log.interrupts += 1;
+                    return Err(io::Error::new(io::ErrorKind::Interrupted, "interrupted"));
+                }
+                Step::IntrBurst(n) => {
+                    if prefill || n == 0 {
+                        continue;
+                    }
+                    if self.burst_left == 0 {
+                        // full storms during the first four rounds of the cycle, single
+                        // interruptions afterwards (keeps long documents affordable)
+                        let round = (self.step - 1) / self.sched.steps.len();
+                        self.burst_left = if round < 4 { n as u32 } else { 1 };
+                    }
+                    self.burst_left -= 1;
+                    if self.burst_left > 0 {
+                        self.step -= 1;
                     }
                     log.interrupts += 1;
                     return Err(io::Error::new(io::ErrorKind::Interrupted, "interrupted"));
@@ -469,6 +494,8 @@ pub fn schedule_strategy() -> impl Strategy<Value = Schedule> {
         4 => proptest::collection::vec(step_strategy(), 1..10),
         1 => Just(vec![Step::Give(1), Step::Intr]),
         1 => Just(vec![Step::Intr, Step::Intr, Step::Give(3)]),
+        1 => (prop_oneof![1u16..=40, 41u16..=300, Just(1000u16), Just(5000u16)], 1u32..=20)
+            .prop_map(|(n, g)| vec![Step::IntrBurst(n), Step::Give(g)]),
     ];
     base.prop_map(|steps| {
         Schedule {
@@ -498,6 +525,9 @@ pub fn ctor_strategy() -> impl Strategy<Value = Ctor> {
         2 => Just(Ctor::Boxed),
         3 => (1usize..=64).prop_map(Ctor::BufReader),
         1 => Just(Ctor::BufReader(0)),
+        // std's default capacity, the reader's default chunk size and beyond (only matters for
+        // documents of that size: the large-document oracles)
+        1 => proptest::sample::select(vec![8192usize, 16384, 16385, 40000, 65536]).prop_map(Ctor::BufReader),
     ]
 }
 
